@@ -8,13 +8,13 @@ HERE = os.path.dirname(os.path.abspath(__file__))
 # id -> (technique, level text, level note, design ref)
 CLAIMS = {
  "C01": ("path enumeration over go/ssa with path-relative origins (decision table of every matcher); must-compare / lookup-provenance / narrowing-before-check rules",
-         "Static necessary conditions, decided for all inbound packets at once: on every CFG path to a returned ProbeResponse the quoted destination, quoted inner source (unless relaxed), direct-reply tuple, flags, echo id are compared with the run's own values, a sent-probe lookup keyed by the quoted identifier succeeded, the TTL comes from it, and no identifier is narrowed before its range check. Does not decide decoder correctness or arrival order.",
+         "Static necessary conditions, decided for all inbound packets at once: on every CFG path to a returned ProbeResponse the quoted destination, quoted inner source (unless relaxed), direct-reply tuple, flags, echo id are compared with the run's own values, a sent-probe lookup keyed by the quoted identifier succeeded, the TTL comes from it, and no identifier is narrowed before its range check. Does not decide decoder correctness or arrival order. (R01.8) The SACK handshake matcher accepts a SYN-ACK only after comparing addresses, ports and the acknowledgement number with the run's own; (R01.9) entries of the sent-probe tables are created only in functions reached from SendProbe and from nowhere else (constructors may install an empty table), because the matchers read an entry as 'this probe was emitted'.",
          "Trusts go/types+go/ssa, gopacket/x-net field semantics, the frozen role table (cross-checked against the probe builders by C06); heap fields of the driver are assumed stable along one matcher path.", "3/C01"),
  "C02": ("decision-table queries (reply-form coverage, deny-list of rewritten fields, strict/relaxed switch), origin analysis of the listening budget",
-         "Static clauses only: every catalogue reply form reaches an accept site, no accept path constrains a field routers rewrite, the strict/relaxed switch is exactly a switch on the INNER quoted source, the parallel engine's deadline originates from timeout+delays and the receiver keeps reading after the destination was seen. Encodings/timing are not decided.",
+         "Static clauses only: every catalogue reply form reaches an accept site, no accept path constrains a field routers rewrite, the strict/relaxed switch is exactly a switch on the INNER quoted source, the parallel engine's deadline originates from timeout+delays and the receiver keeps reading after the destination was seen. Encodings/timing are not decided. (R02.6) In every SendProbe the probe is recorded in the sent-probe table before Sink.WriteTo, so that a reply can never be looked up before its probe exists.",
          "Same trusted base as C01; catalogue of reply forms and rewritten-field deny-list are spelled out in the checker from the property text.", "3/C02"),
  "C03": ("dominance + origin rules over both engines (validated-slot writes, slice size, clip on every success return), decision table of validateProbe/ToHops",
-         "Structural part: result slots are only written with a validated probe at its own TTL index, slice length is int(MaxTTL)+1, both engines return clipResults(MinTTL, results) on every success path, each protocol entry hands the same params to ToHops. The arithmetic inside clipResults is not decided.",
+         "Structural part: result slots are only written with a validated probe at its own TTL index, slice length is int(MaxTTL)+1, both engines return clipResults(MinTTL, results) on every success path, each protocol entry hands the same params to ToHops. The arithmetic inside clipResults is not decided. (R03.4 also) ToHops receives the engine's slice as a whole (result #0, or the Hops field of the ICMP/SACK helper's result), not a re-slice of it.",
          "Trusts go/ssa dominators; anchors TracerouteParallel/TracerouteSerial/validateProbe/clipResults/ToHops resolved by name with floors.", "3/C03"),
  "C04": ("decision-table query on the IsDest store of every accept path; origin check of GetDestinationHop/runE2eProbeOnce",
          "Nearly whole, statically: IsDest can be true only on paths that compare the OUTER source with the target and have the protocol's proof-of-arrival form; time-exceeded paths of ICMP/TCP-SYN store constant false; e2e RTT is the destination hop's RTT.",
@@ -23,28 +23,28 @@ CLAIMS = {
          "Pairing and ordering clauses: RTT and TTL of an accepted reply come from the same sent-probe lookup; the send time is taken and stored before Sink.WriteTo; ToHops copies RTT of the same probe; numeric value/timing not decided.",
          "Same trusted base as C01; time.Now/time.Since semantics.", "3/C05"),
  "C06": ("interprocedural origin sets of every IP/TCP/UDP/ICMP layer literal in each SendProbe tree; serialise-option constants; CFG rules on the two engine send loops; who-may-call",
-         "Builder and engine discipline for all TTLs: TTL field originates from SendProbe's ttl only, FixLengths/ComputeChecksums constant true with SetNetworkLayerForChecksum, flow fields are run-invariant, per-probe id is an injective affine function of ttl in >=16 bits, one SendProbe call per engine inside a +1 counted loop MinTTL..MaxTTL with pacing and stop-on-destination. gopacket's serialisation itself is trusted.",
+         "Builder and engine discipline for all TTLs: TTL field originates from SendProbe's ttl only, FixLengths/ComputeChecksums constant true with SetNetworkLayerForChecksum, flow fields are run-invariant, per-probe id is an injective affine function of ttl in >=16 bits, one SendProbe call per engine inside a +1 counted loop MinTTL..MaxTTL with pacing and stop-on-destination. gopacket's serialisation itself is trusted. (R06.7) The IP version and protocol / next-header constants of each probe literal agree with the layers serialised after it; identifiers computed by a module helper are decided through the helper's return paths (each injective in the ttl, path selection independent of the ttl).",
          "Trusts gopacket SerializeLayers given those options; Paris-mode rand.Uint32 ids are the documented probabilistic exception.", "3/C06"),
  "C07": ("exhaustive abstract evaluation (3x2 cases) of the parallel engine's update closure by path enumeration; must-pass-through of the merge on every accepted reply; lockset on the merge state",
          "The update rule is evaluated on every abstract (slot, reply) case and must equal first-wins/destination-overrides; every accepted+validated reply reaches the update under the mutex; results is read only after Wait. Together: the result depends on accepted replies only through the two rules, for every schedule. Delivery order by the driver and deadline races are not decided.",
          "Happens-before edges recognised: mutex, errgroup Wait, goroutine start.", "3/C07"),
  "C08": ("blocking-primitive enumeration over the module call graph with governor (deadline/ctx-origin) rules; loop-exit classification; attach-order rule",
-         "Necessary condition for bounded termination: every blocking primitive reachable on the run path is governed by a finite deadline originating from parameters/constants and every loop has a recognised exit; both engines derive their ctx from the caller's and report cancellation. The numeric bound itself is a runtime quantity and is not decided.",
+         "Necessary condition for bounded termination: every blocking primitive reachable on the run path is governed by a finite deadline originating from parameters/constants and every loop has a recognised exit; both engines derive their ctx from the caller's and report cancellation. The numeric bound itself is a runtime quantity and is not decided. Producer/consumer contract: when a loop leaves on errors.Is(err, os.ErrDeadlineExceeded) for an error produced by the read helper, the helper's own deadline branch must return an error that still wraps the read error.",
          "Table of blocking library entry points; kernel honours deadlines.", "3/C08"),
  "C09": ("error-class summaries (fixpoint over the call graph) + retryable-means-skipped CFG rule + no-panic reachability + compiler bounds-check-elimination oracle (thorough)",
-         "No error whose cause is the content of an inbound buffer reaches an engine in a fatal class (only the SACK capability verdicts may), retryable errors lead to continue with no state write, no panic/Must*/log.Fatal is reachable from ReceiveProbe/ReadHandshake in the module, and (thorough) the set of compiler-unproven bounds checks on the inbound path equals the reviewed table. Panics inside gopacket/x-net are not decided.",
+         "No error whose cause is the content of an inbound buffer reaches an engine in a fatal class (only the SACK capability verdicts may), retryable errors lead to continue with no state write, no panic/Must*/log.Fatal is reachable from ReceiveProbe/ReadHandshake in the module, and (thorough) the set of compiler-unproven bounds checks on the inbound path equals the reviewed table. Panics inside gopacket/x-net are not decided. (R09.3d) Every direct gopacket layer decode reachable from the inbound roots passes a non-nil DecodeFeedback (the decoders call df.SetTruncated() on short input).",
          "Classification table of library callees (content vs io); Go compiler's prove pass as auxiliary oracle.", "3/C09"),
  "C10": ("handle typestate by path enumeration with deferred closes and closer summaries; no-partial-success and cause-preservation (%w / Unwrap) rules; goroutine join post-dominance",
          "On every path of the four protocol entry points and the handle constructors each opened handle is closed exactly once (or escapes through a successful return), never used after a non-deferred close; every error return of the run path returns a nil result; io-class causes are wrapped with %w; every go/errgroup.Go is joined before return; each SetPacketFilter error is checked.",
          "Opener/closer tables for os/net/x-sys APIs; linux and darwin builds only (Windows cannot be type-checked here).", "3/C10"),
  "C11": ("decision-table query for a per-run discriminator on every accept path; atomic read-modify-write rule on the allocators; package-level-write reachability",
-         "Every accept path compares a value unique to the run by construction (echo id from nextEchoID, local port held open until return, SACK 4-tuple); allocators use a single atomic Add per allocation and ids are base+ttl; no other package-level mutable state is written on the run path and each driver owns fresh parser/buffer/table. 65536-live-id arithmetic not decided.",
+         "Every accept path compares a value unique to the run by construction (echo id from nextEchoID, local port held open until return, SACK 4-tuple); allocators use a single atomic Add per allocation and ids are base+ttl; no other package-level mutable state is written on the run path and each driver owns fresh parser/buffer/table. 65536-live-id arithmetic not decided. Package-level variables that run-path code hands to calls by address or by reference (pools, maps, caches) must be in the reviewed table.",
          "Same trusted base as C01/C10; sync/atomic semantics.", "3/C11"),
  "C12": ("extraction of the five cBPF programs from source + own abstract interpreter, exhaustive sweep over the frame equivalence classes against reference predicates; filter-vs-matcher containment",
          "Whole property modulo kernel/assembler semantics: every program extracted from the source is evaluated on the full product of the classes the programs can distinguish and must equal the reference predicate from the property statement; parameters originate from the right config fields; every SetPacketFilter site installs a program whose accept set contains the driver's reply forms; attach order drop-all, drain, filter.",
          "cBPF semantics as documented (implemented independently in the checker); bpf.Assemble is a faithful assembler.", "3/C12"),
  "C14": ("field-level lockset analysis per goroutine context (SendProbe tree vs ReceiveProbe tree of parallel drivers; go/errgroup closures)",
-         "For every parallel-capable driver each receiver field touched by both the sender and receiver trees with a write has a common mutex or atomic type; every variable captured by concurrently running closures is accessed under a common mutex or after the Wait join; allocators are atomic; drivers are constructed per run.",
+         "For every parallel-capable driver each receiver field touched by both the sender and receiver trees with a write has a common mutex or atomic type; every variable captured by concurrently running closures is accessed under a common mutex or after the Wait join; allocators are atomic; drivers are constructed per run. A type-keyed complement covers fields of module structs reached through pointers (two access paths that may name one object), and an access in the spawning loop's body counts as 'before the spawn' only for variables allocated afresh in that iteration.",
          "No pointer analysis (aliasing through fresh-allocation check only); library objects internally synchronised.", "3/C14"),
  "C15": ("counted-loop / one-go-per-iteration rule, per-path append counting inside each closure, all-or-error return shape",
          "One goroutine per requested unit, every closure path appends exactly one element to exactly one accumulator under the mutex (0 RTT on the probe error branch), public-IP closure never touches the error list, after Wait a non-empty error list returns (nil, errors.Join(all)), RunTraceroute returns it before any enrichment.",
@@ -56,13 +56,13 @@ CLAIMS = {
          "The flag reaches TracerouteParams.SkipPrivateHops from both front ends, every success path of RunTraceroute with the flag set passes through RemovePrivateHops, the placeholder is a fresh hop whose only non-zero field is the replaced hop's TTL at the same index, the only condition is net.IP.IsPrivate on the hop's own address, all hops of all runs are visited.",
          "net.IP.IsPrivate is correct at block boundaries and for mapped forms (standard library).", "3/C17"),
  "C18": ("writer/reader key-origin agreement, error-branch effect rule, dominance rules in cache.GetWithExpiration, provider-iteration shape",
-         "Map key and lookup argument share the closure's own ip; reader derives the key by the same conversion; lookup failure writes nothing and returns no error; Cache.Set only on the err==nil edge, callback not called on a hit; providers iterated in order, first success returned, 4xx/invalid body wrapped Permanent.",
+         "Map key and lookup argument share the closure's own ip; reader derives the key by the same conversion; lookup failure writes nothing and returns no error; Cache.Set only on the err==nil edge, callback not called on a hit; providers iterated in order, first success returned, 4xx/invalid body wrapped Permanent. No other outcome of a completely received answer that may carry a 4xx status is reported with a retryable error.",
          "go-cache and backoff library semantics.", "3/C18"),
  "C19": ("narrowing/overflow lint on the parameter path (interprocedural origins to TracerouteParams / query / flags), exhaustive-switch rule",
-         "Every int->uint8/uint16 narrowing of a user parameter is dominated by a range check that rejects, no 8/16-bit arithmetic reaches a make size/index/loop bound, protocol/method switches end in an error default, port is range-checked before narrowing, TTL bounds reach the engine loops through conversions only. End-to-end behaviour of accepted extremes needs execution and is not decided.",
+         "Every int->uint8/uint16 narrowing of a user parameter is dominated by a range check that rejects, no 8/16-bit arithmetic reaches a make size/index/loop bound, protocol/method switches end in an error default, port is range-checked before narrowing, TTL bounds reach the engine loops through conversions only. End-to-end behaviour of accepted extremes needs execution and is not decided. (R19.5) The HTTP layer hands the library exactly the integers the request states: every integer field of the parameters literal is a query decoder's result (converted or scaled by a constant at most), a decoder returns the parsed number itself or, only when the key is absent or not a number, its default, and the handler passes the literal unmodified to RunTraceroute behind err == nil.",
          "Interval reasoning limited to constants, widenings and dominating comparisons.", "3/C19"),
  "C20": ("decision table of performTCPFallback over the method constants, allocation-site census of NotSupportedError, %w-transparency along the call paths, call-graph reachability (no dial from the SYN path), e2e override dominance",
-         "Selector shape per method, the exact set of sites that may produce NotSupportedError (dial failure, platform, no SACK-permitted, ACK without SACK), the class survives every wrapping up to the selector, no connection-opening call is reachable from the SYN traceroute, e2e probes rewrite every SACK-routing method to SYN before the run.",
+         "Selector shape per method, the exact set of sites that may produce NotSupportedError (dial failure, platform, no SACK-permitted, ACK without SACK), the class survives every wrapping up to the selector, no connection-opening call is reachable from the SYN traceroute, e2e probes rewrite every SACK-routing method to SYN before the run. The census is keyed by creating function and kind of cause with the reviewed number of sites, not by message text.",
          "VTA call graph over module functions; errors.As semantics.", "3/C20"),
 }
 
